@@ -351,7 +351,7 @@ func (f *sxFrame) active(fn *ssa.Function) bool {
 }
 
 const (
-	sxInlineDepth  = 3
+	sxInlineDepth  = 5
 	sxInlineBlocks = 60
 )
 
